@@ -308,6 +308,18 @@ def custom_main(a, seed):
                         json.dump(rp, f, indent=1)
         except Exception as e:
             print("  (cannot list the static-storage objects: %s)" % e)
+        # name the members the definite-initialisation table finds read before written (the Lean walk is the
+        # authority - theorem members_initialised_before_read -; this is the translator's own evaluation of the same events)
+        try:
+            ev = json.load(open(os.path.join(C.EVID, "C08.json"))) if not a.replay else {}
+            it = ev.get("coverage", {}).get("generated", {}).get("InitTable", {})
+            early = ["%s::%s read before written in the lifecycle of `%s` in %s (line %s)" % (x["cls"], m, x["var"] or "<temporary>", x["function"], x["line"])
+                     for x in it.get("python_read_before_write", []) for m in x["members"]]
+            early += ["%s reads %s before writing it" % (x["ctor"], m) for x in it.get("ctor_reads_before_write", []) for m in x["members"]]
+            if early:
+                print("  problem[init-order]: " + "; ".join(early)[:1500])
+        except Exception as e:
+            print("  (cannot list the early reads: %s)" % e)
         return rc
     if a.tier not in ("quick", "thorough"):
         return rc
